@@ -79,7 +79,7 @@ func (c *converter) ProgramEnd() error {
 			fmt.Sprintf(`local _l=%s`, c.sliceLenString("${2}")),
 			"local _n=$(eval \"echo \\${${1}}\")",
 			"while [ ${_i} -lt ${_l} ]; do",
-			fmt.Sprintf("local _v=%s", c.sliceEvaluationString("${2}", "${_i}")),
+			c.sliceEvaluationString("local _v", "${2}", "${_i}"),
 			c.sliceAssignmentString("${_n}", "${_i}", "${_v}", false),
 			"_i=$((${_i}+1))",
 			"done",
@@ -388,7 +388,7 @@ func (c *converter) SliceInstantiation(values []string, valueUsed bool) (string,
 		vals := ""
 
 		for _, value := range values {
-			vals = fmt.Sprintf(`%s \"%s\"`, vals, value)
+			vals = fmt.Sprintf(`%s \"%s\"`, vals, c.evalEscape(value))
 		}
 		c.addLine(fmt.Sprintf(`eval "%s=(%s)"`, c.varEvaluationString(helper, false), strings.TrimSpace(vals)))
 	}
@@ -397,11 +397,7 @@ func (c *converter) SliceInstantiation(values []string, valueUsed bool) (string,
 
 func (c *converter) SliceEvaluation(name string, index string, valueUsed bool) (string, error) {
 	helper := c.nextHelperVar()
-	c.VarAssignment(
-		helper,
-		c.sliceEvaluationString(name, index),
-		false,
-	)
+	c.addLine(c.sliceEvaluationString(c.varName(helper, false), name, index))
 	return c.VarEvaluation(helper, valueUsed, false)
 }
 
@@ -576,11 +572,19 @@ func (c *converter) varEvaluationString(name string, global bool) string {
 
 func (c *converter) sliceAssignmentString(name string, index string, value string, global bool) string {
 	c.sliceAssignmentHelperRequired = true
-	return fmt.Sprintf(`eval "%s[%s]=\"%s\""`, name, index, value)
+	return fmt.Sprintf(`eval "%s[%s]=\"%s\""`, name, index, c.evalEscape(value))
 }
 
-func (c *converter) sliceEvaluationString(name string, index string) string {
-	return fmt.Sprintf(`$(eval "echo \${%s[%s]}")`, name, index)
+// sliceEvaluationString assigns the slice element to the target variable. Only the slice name and the index
+// are expanded before eval, the element itself is expanded by eval within quotes (no word splitting, no globbing).
+func (c *converter) sliceEvaluationString(target string, name string, index string) string {
+	return fmt.Sprintf(`eval "%s=\"\${%s[%s]}\""`, target, name, index)
+}
+
+// evalEscape makes sure variables of a value which is passed to eval are expanded by eval (only once, within
+// quotes) instead of being expanded beforehand and then being parsed as code.
+func (c *converter) evalEscape(value string) string {
+	return strings.ReplaceAll(value, "$", `\$`)
 }
 
 func (c *converter) sliceLenString(name string) string {
